@@ -43,10 +43,10 @@ TIERS = {
         "C14": (8000, 60),
         "C15": (1200, 80),
         "C16": (8000, 50),
-        "C19": (400, 60),
+        "C19": (1600, 60),
         "C20": (20000, 60),
     },
-    "thorough": {"default": (400000, 1200), "C15": (25000, 1500), "C19": (8000, 1200)},
+    "thorough": {"default": (400000, 1200), "C15": (25000, 1500), "C19": (30000, 1200)},
 }
 CHUNK = {"default": 12, "C15": 2, "C19": 4}
 TASK_TIMEOUT = 900  # wall guard per chunk: only for a worker stuck inside a C extension
@@ -178,6 +178,8 @@ def replay_file(prop, path, as_json=False):
         f = match_known(v, known)
         if f is not None:
             print(f"KNOWN-FINDING: property={prop} {f['what']}")
+            print(json.dumps(v, indent=1, default=str)[:3000])
+            return 0
         print(f"VIOLATION property={prop} replay={path}")
         print(json.dumps(v, indent=1, default=str)[:3000])
         return 1
@@ -186,7 +188,21 @@ def replay_file(prop, path, as_json=False):
 
 
 def verify_fresh(prop, path, sig):
-    """Replay in a fresh interpreter; require the identical violation signature."""
+    """Replay in a fresh interpreter; require the identical violation signature.  For a
+    machine whose property *is* reproducibility (C19) the violating behaviour is by nature
+    not exactly repeatable: any violation of the property on replay counts, and the replay
+    is attempted up to 3 times."""
+    loose = bool(getattr(load_machine(prop), "NONDETERMINISTIC_REPLAY", False))
+    last = None
+    for _ in range(3 if loose else 1):
+        ok, info = _verify_fresh_once(prop, path, sig, loose)
+        if ok:
+            return ok, info
+        last = info
+    return False, last
+
+
+def _verify_fresh_once(prop, path, sig, loose):
     env = dict(os.environ)
     env["PYTHONHASHSEED"] = "0"
     try:
@@ -196,7 +212,7 @@ def verify_fresh(prop, path, sig):
     for line in p.stdout.splitlines():
         if line.startswith("REPLAY-JSON "):
             d = json.loads(line[len("REPLAY-JSON "):])
-            if d["violations"] and tuple(sig_of(d["violations"][0])) == tuple(sig):
+            if d["violations"] and (loose or tuple(sig_of(d["violations"][0])) == tuple(sig)):
                 return True, d
             return False, d
     return False, p.stdout[-500:] + p.stderr[-500:]
